@@ -242,7 +242,13 @@ class Check:
 
     def n(self, quick: int, thorough: int) -> int:
         """Case budget; a changed fingerprint escalates quick to thorough (DESIGN §2 step 3)."""
-        return thorough if (self.thorough or self.fingerprint_changed) else quick
+        if self.thorough:
+            return thorough
+        if self.fingerprint_changed:
+            # changed anchored code: spend more on the correspondence, but stay within a
+            # quick-tier time frame (3x the quick budget, never above the thorough one)
+            return min(thorough, quick * 3)
+        return quick
 
     # ---- known findings
     def _load_known(self) -> dict:
